@@ -624,6 +624,55 @@ package saml
 //@    len(sp.SignatureMethod) > 0 ==> strings.HasPrefix(stored, redirectBase(rv.RawQuery) +
 //@      redirectQuery("", requestStr.String(), relayState) + "&SigAlg=" + url.QueryEscape(sp.SignatureMethod) + "&Signature=")
 
+//@ -- the convenience wrappers: the message they emit is the one the constructor built for the matching binding location, and
+//@ -- the caller's relay state is handed to the emitter unchanged (each emitter escapes it exactly once itself)
+//@ contract (*ServiceProvider).MakeRedirectAuthenticationRequest
+//@ requires[cfg] md: sp.IDPMetadata != nil
+//@ requires[cfg] cert: len(sp.SignatureMethod) == 0 || sp.Certificate != nil
+//@ assert@call[C12] GetSSOBindingLocation #1 (s *ServiceProvider, b string) redirect_endpoint_looked_up: s == sp && b == HTTPRedirectBinding
+//@ assert@call[C12] MakeAuthenticationRequest #1 (s *ServiceProvider, idpURL string, binding string, resultBinding string) request_for_redirect_binding:
+//@    s == sp && binding == HTTPRedirectBinding
+//@ assert@call[C12] Redirect #1 (r *AuthnRequest, rs string, s *ServiceProvider) uses req *AuthnRequest relay_state_unchanged: r == req && rs == relayState && s == sp
+//@ contract (*ServiceProvider).MakePostAuthenticationRequest
+//@ requires[cfg] md: sp.IDPMetadata != nil
+//@ requires[cfg] cert: len(sp.SignatureMethod) == 0 || sp.Certificate != nil
+//@ assert@call[C12] GetSSOBindingLocation #1 (s *ServiceProvider, b string) post_endpoint_looked_up: s == sp && b == HTTPPostBinding
+//@ assert@call[C12] MakeAuthenticationRequest #1 (s *ServiceProvider, idpURL string, binding string, resultBinding string) request_for_post_binding:
+//@    s == sp && binding == HTTPPostBinding
+//@ assert@call[C12] Post #1 (r *AuthnRequest, rs string) uses req *AuthnRequest relay_state_unchanged: r == req && rs == relayState
+//@ contract (*ServiceProvider).MakeRedirectLogoutRequest
+//@ requires[cfg] md: sp.IDPMetadata != nil
+//@ requires[cfg] cert: len(sp.SignatureMethod) == 0 || sp.Certificate != nil
+//@ requires[cfg] chain: certsOK(sp.Intermediates)
+//@ assert@call[C12] GetSLOBindingLocation #1 (s *ServiceProvider, b string) redirect_endpoint_looked_up: s == sp && b == HTTPRedirectBinding
+//@ assert@call[C12] MakeLogoutRequest #1 (s *ServiceProvider, idpURL string, id string) request_with_given_id:
+//@    s == sp && id == nameID
+//@ assert@call[C12] Redirect #1 (r *LogoutRequest, rs string) uses req *LogoutRequest relay_state_unchanged: r == req && rs == relayState
+//@ contract (*ServiceProvider).MakePostLogoutRequest
+//@ requires[cfg] md: sp.IDPMetadata != nil
+//@ requires[cfg] cert: len(sp.SignatureMethod) == 0 || sp.Certificate != nil
+//@ requires[cfg] chain: certsOK(sp.Intermediates)
+//@ assert@call[C12] GetSLOBindingLocation #1 (s *ServiceProvider, b string) post_endpoint_looked_up: s == sp && b == HTTPPostBinding
+//@ assert@call[C12] MakeLogoutRequest #1 (s *ServiceProvider, idpURL string, id string) request_with_given_id:
+//@    s == sp && id == nameID
+//@ assert@call[C12] Post #1 (r *LogoutRequest, rs string) uses req *LogoutRequest relay_state_unchanged: r == req && rs == relayState
+//@ contract (*ServiceProvider).MakeRedirectLogoutResponse
+//@ requires[cfg] md: sp.IDPMetadata != nil
+//@ requires[cfg] cert: len(sp.SignatureMethod) == 0 || sp.Certificate != nil
+//@ requires[cfg] chain: certsOK(sp.Intermediates)
+//@ assert@call[C12] GetSLOBindingLocation #1 (s *ServiceProvider, b string) redirect_endpoint_looked_up: s == sp && b == HTTPRedirectBinding
+//@ assert@call[C12] MakeLogoutResponse #1 (s *ServiceProvider, idpURL string, id string) response_with_given_id:
+//@    s == sp && id == logoutRequestID
+//@ assert@call[C12] Redirect #1 (r *LogoutResponse, rs string) uses resp *LogoutResponse relay_state_unchanged: r == resp && rs == relayState
+//@ contract (*ServiceProvider).MakePostLogoutResponse
+//@ requires[cfg] md: sp.IDPMetadata != nil
+//@ requires[cfg] cert: len(sp.SignatureMethod) == 0 || sp.Certificate != nil
+//@ requires[cfg] chain: certsOK(sp.Intermediates)
+//@ assert@call[C12] GetSLOBindingLocation #1 (s *ServiceProvider, b string) post_endpoint_looked_up: s == sp && b == HTTPPostBinding
+//@ assert@call[C12] MakeLogoutResponse #1 (s *ServiceProvider, idpURL string, id string) response_with_given_id:
+//@    s == sp && id == logoutRequestID
+//@ assert@call[C12] Post #1 (r *LogoutResponse, rs string) uses resp *LogoutResponse relay_state_unchanged: r == resp && rs == relayState
+
 //@ -- logout redirects: the relay state, when given, is set as the RelayState parameter on every path, unmodified
 //@ contract (*LogoutRequest).Redirect
 //@ assert@call[C12] Encode #1 (q url.Values) relay_state_forwarded:
